@@ -47,3 +47,22 @@ Theorem C10_absolute_offset_decodes :
   forall mx f lp : N, 0 < mx -> lp < mx -> (f * mx + lp) / mx = f /\ (f * mx + lp) mod mx = lp.
 Proof. exact absolute_offset_decodes. Qed.
 Print Assumptions C10_absolute_offset_decodes.
+
+(* ---- "if the conversion is interrupted at any step, opening again completes it": re-pointing ONE index file (index.remapIndex),
+   RemapProto.v.  The file's contents are abstracted to the number of times its offsets have been remapped; one file is processed by
+   copy (possibly cut short) / remap the copy / create the marker / rename the copy over the file; a restart replaces a marked file by its
+   copy if the copy is still there and skips it, and processes an unmarked file from the start.  After ANY number of crashes, each after
+   any number of steps, a restart that runs to the end leaves the file remapped exactly once. ---- *)
+From STH Require Import RemapProto.
+Theorem C10_index_file_is_remapped_exactly_once :
+  forall ks s, rinv s ->
+    content (rfinish true (rcrashes true s ks)) = 1%nat /\ marker (rfinish true (rcrashes true s ks)) = true.
+Proof. exact remap_exactly_once. Qed.
+Print Assumptions C10_index_file_is_remapped_exactly_once.
+(* with the restart rule of the unrepaired code (a marked file is skipped) a crash between the marker and the rename leaves the file with
+   the offsets of the old primary, and no later restart changes that (the genuine defect F26) *)
+Theorem C10_unrepaired_restart_loses_the_remap :
+  let s := rcrashed false {| content := 0%nat; tmp := None; marker := false |} 4 in
+  content s = 0%nat /\ marker s = true /\ forall n, restarts n s = s.
+Proof. exact unrepaired_restart_loses_the_remap. Qed.
+Print Assumptions C10_unrepaired_restart_loses_the_remap.
